@@ -313,6 +313,11 @@ def main():
     }
     ev = {"property_id": prop, "tier": tier, "seed": seed, "level": getattr(mod, "LEVEL", "other"), "coverage": cov,
           "assumptions": meta.get("assumptions", []), "wall_s": round(wall, 2), "violations": len(violations)}
+    try:
+        from vf import tmpclean
+        tmpclean.sweep_stale()
+    except Exception:
+        pass
     if not a.no_evidence:
         os.makedirs(os.path.join(HERE, "evidence"), exist_ok=True)
         json.dump(ev, open(os.path.join(HERE, "evidence", prop + ".json"), "w"), indent=1, default=str)
